@@ -47,6 +47,8 @@ class FlowGen:
         self.closure_vars = set()
         self.nloop = 0
         self.stack = []
+        # every fourth function or so concentrates on jumps that leave nested try/finally statements
+        self.jump_focus = rng.random() < 0.2
 
     # ---------------------------------------------------------------- helpers
     def bit(self):
@@ -115,7 +117,9 @@ class FlowGen:
         if depth >= self.max_depth:
             return self.leaf(ind)
         kinds = [('leaf', 30), ('if', 20), ('for', 9), ('while', 5), ('try', 12), ('tryfin', 6), ('with', 5), ('match', 4),
-                 ('comp', 3), ('inner', 9), ('exc_as', 4), ('forvar', 4), ('elseprobe', 6)]
+                 ('comp', 3), ('inner', 9), ('exc_as', 4), ('forvar', 4), ('elseprobe', 6), ('finprobe', 7)]
+        if self.jump_focus:
+            kinds = [(k_, 45 if k_ == 'finprobe' else w_) for k_, w_ in kinds]
         if 'loop' in self.stack:
             kinds.append(('brk', 8))
         tot = sum(w for _, w in kinds)
@@ -164,6 +168,8 @@ class FlowGen:
                         i2 + '%s = %s' % (v, self.value(v)), ind + 'else:'] + rd
             return [ind + 'try:', i2 + 'if %s:' % self.bit(), i2 + '    raise ValueError(%d)' % self.newid(),
                     i2 + '%s = %s' % (v, self.value(v)), ind + 'except ValueError:'] + rd
+        if k == 'finprobe':
+            return self.finprobe(ind)
         if k == 'forvar':
             # the loop target is one of the tracked variables: unbound after an empty loop
             v = self.var()
@@ -262,6 +268,74 @@ class FlowGen:
             return [ind + 'try:', i2 + 'if %s:' % self.bit(), i2 + '    raise ValueError(%d)' % self.newid(),
                     ind + 'except ValueError as %s:' % v, i2 + "log('h%d')" % self.newid()]
         raise AssertionError(k)
+
+    def finprobe(self, ind):
+        """a jump (break / continue / return / raise) that leaves 1-3 *nested* try/finally statements of one loop; every
+        `finally` clause may unbind, rebind or read the probed variable, the code between two levels (which the jump
+        skips) may rebind it, and it is read after the loop.  Whether the read finds the variable bound depends on
+        which `finally` clauses the jump runs, and in which order."""
+        rng = self.rng
+        cands = [u for u in self.vars if u not in self.closure_ok]
+        if not cands:
+            return self.leaf(ind)
+        v = rng.choice(cands)
+        levels = rng.choice([1, 2, 2, 2, 3, 3])
+        jump = rng.choice(['break', 'break', 'break', 'continue', 'continue', 'return', 'raise'])
+        self.feat.add('jump-finally-probe')
+        self.feat.add('jump-finally:%s:%d' % (jump, levels))
+        self.nloop += 1
+        n = self.nloop
+        i2 = ind + '    '
+
+        def rd(i):
+            return [i + 'try:', i + '    log(%s)' % v, i + 'except NameError as e_:', i + "    log(('unb', type(e_).__name__))"]
+
+        def action(i, innermost):
+            # the innermost clause mostly changes what is bound; outer clauses do so less often, so that many probes
+            # depend on one particular clause being run
+            r = rng.random()
+            p_del, p_set, p_rd = (0.5, 0.65, 0.85) if innermost else (0.22, 0.36, 0.62)
+            if r < p_del:
+                return [i + 'try:', i + '    del %s' % v, i + 'except NameError as e_:', i + "    log(('del', type(e_).__name__))"]
+            if r < p_set:
+                return [i + '%s = %s' % (v, self.value(v))]
+            if r < p_rd:
+                return rd(i)
+            return []
+
+        jstmt = {'break': 'break', 'continue': 'continue', 'return': "return 'r%d'" % n,
+                 'raise': 'raise KeyError(%d)' % n}[jump]
+
+        def level(j, i):
+            i3 = i + '    '
+            if j == levels:
+                body = [i3 + 'if %s:' % self.bit(), i3 + '    ' + jstmt]
+                if rng.random() < 0.3:
+                    body += [i3 + '%s = %s' % (v, self.value(v))]
+            else:
+                body = level(j + 1, i3)
+                r = rng.random()
+                if r < 0.5:         # only runs when the jump is not taken
+                    body += [i3 + '%s = %s' % (v, self.value(v))]
+                elif r < 0.7:
+                    body += rd(i3)
+            return [i + 'try:'] + body + [i + 'finally:', i3 + "log('f%d_%d')" % (n, j)] + action(i3, j == levels)
+
+        out = []
+        if rng.random() < 0.65:
+            out.append(ind + '%s = %s' % (v, self.value(v)))
+        if rng.random() < 0.65:
+            out.append(ind + 'for i%d in %s:' % (n, rng.choice(['range(2)', 'range((%s) + 1)' % self.bit()])))
+        else:
+            out += [ind + 'c%d = 0' % n, ind + 'while c%d < 2:' % n, i2 + 'c%d += 1' % n]
+        out += level(1, i2)
+        if rng.random() < 0.4:
+            out.append(i2 + '%s = %s' % (v, self.value(v)))
+        if rng.random() < 0.25:
+            out += [ind + 'else:'] + rd(i2)
+        if jump == 'raise':
+            out = [ind + 'try:'] + ['    ' + ln for ln in out] + [ind + 'except KeyError:', i2 + "log('k%d')" % self.newid()]
+        return out + rd(ind)
 
     def function(self):
         init = ['    %s = %s' % (v, self.value(v)) for v in self.vars if self.rng.random() < 0.72]
